@@ -8,7 +8,6 @@ import (
 	"hash/fnv"
 	"io"
 	"math"
-	"os"
 	"strconv"
 	"strings"
 	"time"
@@ -31,11 +30,6 @@ import (
 // documents in <bucket>.files/.chunks/.markers.
 
 const gfsBuf = gridfs.UploadBufferSize // the real constant (16 MiB), sent to the model as "buf"
-
-// strict whence: flag Seek with whence ∉ {0,1,2} (accepted by DownloadStream.Seek, rejected by
-// bytes.Reader) as a C18 violation.  Off by default: such calls are outside io.Seeker's contract;
-// they are still generated and compared with the model.
-var gfsStrictWhence = os.Getenv("GRIDFS_STRICT_WHENCE") != ""
 
 type gfsContent struct {
 	length int
@@ -81,7 +75,7 @@ type gfsCase struct {
 	content    gfsContent
 	life       []gfsOp
 	script     []gfsOp
-	expect     string // "complete", "nothing", "any"
+	expect     string // "complete", "nothing", "rejected", "any"
 	kind       string
 	nontrivial bool
 }
@@ -125,7 +119,7 @@ func gfsErrClass(err error) string {
 		{"invalid marker state", "bad_state"}, {"marker chunk size does not match", "chunk_size_mismatch"},
 		{"found invalid chunk", "invalid_chunk"}, {"unable to update marker", "marker_update"},
 		{"upload is not finished", "not_finished"}, {"invalid chunk size", "bad_chunk_size"},
-		{"expected chunk", "expected_chunk"},
+		{"expected chunk", "expected_chunk"}, {"invalid whence", "invalid_whence"},
 	} {
 		if strings.HasPrefix(msg, p[0]) {
 			return `"` + p[1] + `"`
@@ -209,17 +203,32 @@ func gfsRun(c *gfsCase, req string) (reply string, viols []run.Violation) {
 	}
 
 	id := primitive.NewObjectID()
+	badChunk := c.chunk <= 0 || c.chunk > gfsBuf
+	var life []string
+	// open reports ["o",err]; a stream that must not exist (unusable chunk size accepted) is never used:
+	// writing to it would spin, loop or panic
 	open := func() *lungo.UploadStream {
 		us, err := b.OpenUploadStreamWithID(nil, id, "file", uopt()...)
+		life = append(life, fmt.Sprintf(`["o",%s]`, gfsErrClass(err)))
 		if err != nil {
-			panic("open upload stream: " + err.Error())
+			return nil
+		}
+		if badChunk {
+			add("upload stream opened with an unusable chunk size", "bad-chunk-size-accepted", fmt.Sprintf("chunk=%d buffer=%d", c.chunk, gfsBuf))
+			return nil
 		}
 		return us
 	}
 	us := open()
 	off := 0
-	var life []string
 	for _, o := range c.life {
+		if us == nil {
+			switch o.name {
+			case "write", "suspend", "resume", "close", "abort":
+				life = append(life, `["x"]`)
+				continue
+			}
+		}
 		switch o.name {
 		case "write":
 			end := off + int(o.a)
@@ -237,7 +246,6 @@ func gfsRun(c *gfsCase, req string) (reply string, viols []run.Violation) {
 		case "open":
 			us = open()
 			off = 0
-			life = append(life, `["o"]`)
 		case "resume":
 			n, err := us.Resume()
 			if err == nil {
@@ -386,20 +394,17 @@ func gfsRun(c *gfsCase, req string) (reply string, viols []run.Violation) {
 					if o.name == "skip" {
 						whence = io.SeekCurrent
 					}
+					p, err := rd.Seek(o.a, whence)
 					if whence < 0 || whence > 2 {
-						if gfsStrictWhence {
-							p, err := rd.Seek(o.a, whence)
-							if (err == nil) != (got.err == nil) || p != got.n {
-								add("Seek with invalid whence accepted", "seek-invalid-whence", fmt.Sprintf("step %d: got (%d,%v) want (%d,%v)", i, got.n, got.err, p, err))
+						// bytes.Reader rejects an unknown whence and does not move; so must the stream
+						if got.err == nil || err == nil || p != got.n || errors.Is(got.err, lungo.ErrNegativePosition) {
+							add("Seek with invalid whence differs from bytes.Reader", "seek-invalid-whence", fmt.Sprintf("step %d: got (%d,%v) want (%d,%v)", i, got.n, got.err, p, err))
+							if got.err == nil {
+								_, _ = rd.Seek(got.n, io.SeekStart) // resynchronise the reference
 							}
-						}
-						// resynchronise the reference with what the stream did (position 0)
-						if got.err == nil {
-							_, _ = rd.Seek(got.n, io.SeekStart)
 						}
 						continue
 					}
-					p, err := rd.Seek(o.a, whence)
 					neg := err != nil
 					if p != got.n || neg != (got.err != nil) || (neg && !errors.Is(got.err, lungo.ErrNegativePosition)) {
 						add("Seek/Skip differs from bytes.Reader", "script-seek", fmt.Sprintf("step %d: got (%d,%v) want (%d,%v)", i, got.n, got.err, p, err))
@@ -408,6 +413,11 @@ func gfsRun(c *gfsCase, req string) (reply string, viols []run.Violation) {
 			}
 		} else {
 			add("cannot open download stream of completed upload", "open-download:"+kindW, openJ)
+		}
+	case "rejected":
+		// no upload stream may exist, so nothing of the file can be stored (a tracked Delete may leave its marker)
+		if len(chunkDocs) != 0 || file != nil {
+			add("documents stored although the chunk size is unusable", "bad-chunk-size-stored", fmt.Sprintf("%d chunks, file %s", len(chunkDocs), fileJ))
 		}
 	case "nothing":
 		if len(chunkDocs) != 0 {
@@ -564,7 +574,31 @@ func gfsScript(r *gen.R, L, c, maxOps int, big bool) (ops []gfsOp, seeks bool, b
 	return
 }
 
+// gfsBadChunkCase: chunk sizes that OpenUploadStreamWithID must reject; nothing may be stored.
+// The content stays tiny (a stream wrongly accepted is never written to).
+func gfsBadChunkCase(r *gen.R) *gfsCase {
+	c := &gfsCase{kind: "bad-chunk", expect: "rejected", nontrivial: true}
+	c.chunk = []int{0, -1, gfsBuf + 1, -5, gfsBuf + 4096, math.MinInt32, math.MaxInt32}[r.N(7)]
+	c.content = gfsContent{length: r.N(40), seed: r.N(251)}
+	c.tracked = r.P(40)
+	c.bucketOpt = r.P(40)
+	names := []string{"write", "write", "close", "abort", "suspend", "open", "resume", "claim", "delete", "cleanup"}
+	n := 1 + r.N(5)
+	for i := 0; i < n; i++ {
+		op := gfsOp{name: names[r.N(len(names))]}
+		if op.name == "write" {
+			op.a = int64(r.N(20))
+		}
+		c.life = append(c.life, op)
+	}
+	c.script, _, _ = gfsScript(r, c.content.length, 4, 3, false)
+	return c
+}
+
 func gfsGenCase(r *gen.R) *gfsCase {
+	if r.P(4) {
+		return gfsBadChunkCase(r)
+	}
 	c := &gfsCase{}
 	big := r.P(2)
 	var L int
@@ -719,6 +753,9 @@ func gfsTags(c *gfsCase) []string {
 		tags = append(tags, "untracked")
 	}
 	L := c.content.size()
+	if c.chunk <= 0 || c.chunk > gfsBuf {
+		return append(tags, "chunk:rejected")
+	}
 	switch {
 	case L == 0:
 		tags = append(tags, "len:empty")
@@ -795,52 +832,26 @@ func gfsCorpus() []run.Case {
 			script: []gfsOp{{name: "read", a: 5}, {name: "seek", a: -3, b: 2}, {name: "read", a: 10}, {name: "read", a: 1}, {name: "skip", a: -1}}, expect: "complete", kind: "plain", nontrivial: true},
 		{chunk: 4, content: gfsContent{raw: []byte{}}, life: []gfsOp{op("close")}, script: []gfsOp{{name: "read", a: 0}, {name: "read", a: 1}, {name: "seek", a: 0, b: 2}}, expect: "complete", kind: "plain"},
 	}
+	// unusable chunk sizes: every open must fail, nothing may be stored
+	for _, ch := range []int{0, -1, B + 1} {
+		for _, tr := range []bool{false, true} {
+			cases = append(cases, &gfsCase{chunk: ch, tracked: tr, bucketOpt: ch == 0, content: gfsContent{raw: []byte("abcdefgh")},
+				life: []gfsOp{w(3), op("close"), op("open"), w(8), op("suspend"), op("abort"), op("claim")}, script: []gfsOp{{name: "read", a: 4}},
+				expect: "rejected", kind: "bad-chunk", nontrivial: true})
+		}
+	}
 	var out []run.Case
 	for _, c := range cases {
 		out = append(out, gfsExec(c))
 	}
-	if os.Getenv("GRIDFS_PROBE_HANG") != "" {
-		out = append(out, gfsHangProbe())
-	}
 	return out
-}
-
-// gfsHangProbe (opt-in, GRIDFS_PROBE_HANG=1): Write with a chunk size above the upload buffer never
-// returns once the buffer is full (upload(false) cuts nothing, copy() copies nothing).  The spinning
-// goroutine is leaked on purpose; there is no model comparison (the model reports Err.diverged, see the
-// example in Props/C18.lean).
-func gfsHangProbe() run.Case {
-	req := fmt.Sprintf(`{"probe":"write","chunk":%d,"buf":%d,"len":%d}`, gfsBuf+1, gfsBuf, gfsBuf+1)
-	c := run.Case{Req: "", Impl: `{"ok":"returned"}`, Tags: []string{"kind:hang-probe"}}
-	client, engine, err := lungo.Open(nil, lungo.Options{Store: lungo.NewMemoryStore()})
-	if err != nil {
-		return c
-	}
-	_ = engine // left open: the spinning goroutine still uses it
-	b := lungo.NewBucket(client.Database("gfs"), options.GridFSBucket().SetName("fs"))
-	us, err := b.OpenUploadStreamWithID(nil, primitive.NewObjectID(), "file", options.GridFSUpload().SetChunkSizeBytes(int32(gfsBuf+1)))
-	if err != nil {
-		return c
-	}
-	done := make(chan struct{})
-	go func() {
-		defer func() { _ = recover(); close(done) }()
-		_, _ = us.Write(make([]byte, gfsBuf+1))
-	}()
-	select {
-	case <-done:
-	case <-time.After(3 * time.Second):
-		c.Impl = `{"ok":"spinning"}`
-		c.Viols = []run.Violation{{Property: "C18", What: "Write does not return when the chunk size exceeds the upload buffer",
-			Witness: "write-spins:chunk>buffer", Req: req, Detail: "no return within 3s; upload(false) cuts no chunk, copy() copies 0 bytes"}}
-	}
-	return c
 }
 
 func init() {
 	run.Register(&run.Stream{
 		Name: "gridfs",
-		Rule: "one upload lifecycle (plain / abort / abort+reupload / delete(+cleanup) / tracked suspend-open-resume segments / error probes) " +
+		Rule: "one upload lifecycle (plain / abort / abort+reupload / delete(+cleanup) / tracked suspend-open-resume segments / error probes / " +
+			"4% unusable chunk sizes 0, negative, > buffer that must be rejected) " +
 			"with content length k*c+d around multiples of the chunk size c (2% around the " + strconv.Itoa(gfsBuf) + "-byte upload buffer), a write partition, " +
 			"and a read/seek/skip script on the download stream; non-trivial = length not a multiple of the chunk size or the script seeks/skips",
 		Gen: func(r *gen.R, idx int) []run.Case {
